@@ -1180,7 +1180,18 @@ fn c05(r: &mut Rng, fonts: &[FontInfo], n: u64, tr: &mut Option<std::fs::File>) 
             let res = catch(std::panic::AssertUnwindSafe(|| {
                 let mut ub = UnicodeBuffer::new();
                 let mut outs = Vec::new();
-                for rq in &reqs {
+                for (k, rq) in reqs.iter().enumerate() {
+                    // the caller changes its mind: a longer context first, then the real one (also the empty one) - only the
+                    // last call counts
+                    if k % 2 == 1 {
+                        let long: String = std::iter::repeat(char::from_u32(c).unwrap()).take(4).collect();
+                        ub.set_pre_context(&long);
+                        ub.set_post_context(&long);
+                        let pre: String = rq.pre.iter().filter_map(|x| char::from_u32(*x)).collect();
+                        let post: String = rq.post.iter().filter_map(|x| char::from_u32(*x)).collect();
+                        ub.set_pre_context(&pre);
+                        ub.set_post_context(&post);
+                    }
                     ub = fill_push_str(rq, ub);
                     let gb = rustybuzz::shape(&face, &[], ub);
                     outs.push(collect(&face, &gb));
@@ -1710,6 +1721,28 @@ fn c01gen(tr: &mut Option<std::fs::File>) {
             }
         }
         println!("c01gen-case language-sweep n={} out=0 ms=0", codes.len());
+    }
+    // 4g. pre-/post-contexts longer than the five characters a buffer keeps, made of joining-transparent marks (the
+    //     joining pass walks the context until it meets a non-transparent character), for the scripts of the Arabic shaper
+    {
+        let mut f = FontSpec::basic(6);
+        f.cmap = vec![(0x0628, 1), (0x064E, 2), (0x0712, 3), (0x0730, 4), (0x0640, 5)];
+        let data_spec = f.clone();
+        for (letter, mark, script) in [(0x0628u32, 0x064Eu32, "Arab"), (0x0712, 0x0730, "Syrc")] {
+            for n in [1usize, 4, 5, 6, 7, 12, 40] {
+                for with_letter in [false, true] {
+                    let mut ctx: Vec<u32> = vec![mark; n];
+                    if with_letter {
+                        ctx.insert(0, letter);
+                    }
+                    let mut rev = ctx.clone();
+                    rev.reverse();
+                    let text: Vec<(u32, u32)> = vec![(letter, 0), (mark, 1), (letter, 2)];
+                    run_case(&format!("long-transparent-context-{}-{}", script, n), &data_spec, Req { text: text.clone(), pre: ctx.clone(), post: rev, script: Some(script.to_string()), flags: 0, ..Default::default() }, &mut cnt, tr);
+                    run_case(&format!("long-transparent-precontext-{}-{}", script, n), &data_spec, Req { text, pre: ctx, script: Some(script.to_string()), dir: Some(Direction::LeftToRight), flags: 0, ..Default::default() }, &mut cnt, tr);
+                }
+            }
+        }
     }
     // 5. one base followed by 70000 marks attached by mark-to-base and mark-to-mark
     {
